@@ -463,5 +463,5 @@ def run(tier="quick"):
                        "conversions"]
     for m in models:
         rep.configs.append(m.config)
-        rules(rep, m)
+        common.run_rules(rep, m, rules)
     return rep.finish()
